@@ -495,6 +495,29 @@ theorem C05_gen_typecodes :
       Gen.C05.typeCodeToDtype.lookup (typeCodeName t) = some (dtypeString t) := by
   decide
 
+/-- The candidate space regenerated from `compress.py` (Python `ast`) is exactly the one the theorems above cover:
+`_find_best_integer_compression` tries {delta?} × {run-length?} × {no packing, 1 byte, 2 bytes} and extends a chain in the
+order Delta → RunLength → IntegerPacking → ByteArray (the order `chainEncode`/`chainDecode` assume: every enumerated chain
+is a `Chain` for which `C05_compress_candidates_sound` holds); `_to_smallest_integer_type` walks the two ladders
+`toSmallest` walks; `_get_decimal_places` gives up beyond the 18 decimals `decimalsFrom` gives up at; arrays of exactly one
+value take the uncompressed path. A candidate added, a stage reordered or a bound moved breaks this obligation. -/
+theorem C05_gen_compress_tables :
+    Gen.C05.deltaDomain = [false, true] ∧ Gen.C05.rleDomain = [false, true] ∧
+    Gen.C05.packDomain = [none, some 1, some 2] ∧
+    Gen.C05.stageOrder = ["DeltaEncoding", "RunLengthEncoding", "IntegerPackingEncoding", "ByteArrayEncoding"] ∧
+    Gen.C05.chainExtends = [("encodings_after_rle", "encodings_after_delta"),
+      ("encodings_after_packing", "encodings_after_rle"), ("encodings", "encodings_after_packing")] ∧
+    Gen.C05.unsignedLadder = unsignedCands.map (·.1) ∧ Gen.C05.signedLadder = signedCands.map (·.1) ∧
+    Gen.C05.maxDecimals = 18 ∧ Gen.C05.singleValueLength = 1 := by
+  decide
+
+/-- Every chain the regenerated loops enumerate decodes to what it encoded (instance of `C05_compress_candidates_sound`). -/
+theorem C05_gen_candidates_sound (d r : Bool) (p : Option Nat)
+    (_hd : d ∈ Gen.C05.deltaDomain) (_hr : r ∈ Gen.C05.rleDomain) (_hp : p ∈ Gen.C05.packDomain)
+    (t : DType) (ht : t ≠ .i64) (xs : List Int) (hr : ∀ x ∈ xs, t.inRange x)
+    (e : Encoded) (h : chainEncode ⟨d, r, p⟩ t xs = some e) : chainDecode ⟨d, r, p⟩ e = some xs :=
+  C05_compress_candidates_sound ⟨d, r, p⟩ t ht xs hr e h
+
 /-! ## Serialised encodings read back equal -/
 
 /-- `_camel_to_snake_case ∘ _snake_to_camel_case` is the identity on every well-formed snake-case parameter name
